@@ -3,3 +3,4 @@ pub mod c02;
 pub mod c06;
 pub mod c13;
 pub mod c17;
+pub mod c05;
